@@ -38,6 +38,11 @@ var c06Props = func() []c06Prop {
 	// an object that is nothing but its text (no id, no type), on its own and as a member of another object's tag list
 	for _, f := range []string{"Name", "Summary", "Content", "Source.Content", "Source.ContentOnly"} {
 		out = append(out, c06Prop{"Object", f + "@anon"}, c06Prop{"Object", f + "@anon-nested"})
+		if !strings.HasPrefix(f, "Source") {
+			// two id-less members of one type in one list that say the same in the first language and differ in a later one (or, with one
+			// language, in the text): two members, both kept, each with its own texts
+			out = append(out, c06Prop{"Object", f + "@siblings"})
+		}
 	}
 	return out
 }()
@@ -88,12 +93,22 @@ func c06Build(p c06Prop, nl ap.NaturalLanguageValues) ap.Item {
 	if anon == "anon-nested" {
 		return &ap.Object{ID: "https://example.com/texts/1", Type: ap.NoteType, Tag: ap.ItemCollection{ap.IRI("https://example.com/tags/first"), ptr.Interface().(ap.Item)}}
 	}
+	if anon == "siblings" {
+		v.FieldByName("Type").SetString("Note")
+		twin := reflect.New(vocab.StructType(p.GoType))
+		twin.Elem().FieldByName("Type").SetString("Note")
+		other := append(ap.NaturalLanguageValues{}, nl...)
+		last := len(other) - 1
+		other[last] = ap.LangRefValue{Ref: other[last].Ref, Value: ap.Content("the other sibling says: " + string(other[last].Value))}
+		twin.Elem().FieldByName(field).Set(reflect.ValueOf(other))
+		return &ap.Object{ID: "https://example.com/texts/1", Type: ap.NoteType, Tag: ap.ItemCollection{twin.Interface().(ap.Item), ptr.Interface().(ap.Item)}}
+	}
 	return ptr.Interface().(ap.Item)
 }
 
 func c06Extract(p c06Prop, it ap.Item) (ap.NaturalLanguageValues, bool) {
 	field, anon := c06Anon(p.Field)
-	if anon == "anon-nested" {
+	if anon == "anon-nested" || anon == "siblings" {
 		outer, ok := it.(*ap.Object)
 		if !ok || outer == nil || len(outer.Tag) != 2 {
 			return nil, false
